@@ -1,6 +1,7 @@
 CONSTANTS
   Nodes <- Nodes4
   MaxKids = 3
+  Alias = FALSE
   Options <- Opts
 SPECIFICATION Spec
 CHECK_DEADLOCK FALSE
